@@ -105,6 +105,16 @@ func eqU(a, b []uint64) bool {
 // Launch judges one launch() result (C08).
 func (j *Judge) Launch(c *Context, res *drummer.VerifSchedResult, exhausted bool) {
 	run := j.Run
+	if res.Panic != "" && exhausted && c.Regions != nil {
+		// running out of 80 draws is inconclusive for a sane specification (rejection sampling), but a count beyond any shard
+		// size must be refused before a single host is drawn
+		for _, n := range c.Regions.Count {
+			if n > 1<<32 {
+				j.fail("C08", "launch_total", "launch-runs-away-on-huge-count", fmt.Sprintf("a region count of %d (beyond any shard size; negative as a signed integer) was not refused: the planner kept drawing hosts until the scripted random source ran dry", n))
+				return
+			}
+		}
+	}
 	if res.Panic != "" {
 		if exhausted {
 			run.Count("c08:draws_exhausted")
@@ -129,11 +139,15 @@ func (j *Judge) Launch(c *Context, res *drummer.VerifSchedResult, exhausted bool
 			specBad = "length-mismatch"
 		default:
 			sum := uint64(0)
+			huge := false
 			for _, n := range c.Regions.Count {
+				if n > 1<<32 {
+					huge = true // no wrapping around in the oracle's own sum
+				}
 				sum += n
 			}
 			for _, id := range ids {
-				if sum != uint64(len(c.Shards[id].Members)) {
+				if huge || sum != uint64(len(c.Shards[id].Members)) {
 					specBad = "sum-mismatch"
 				}
 			}
